@@ -19,6 +19,8 @@ import copy
 
 from .core import AnalysisError, src_of
 
+STALE = '\u2020'          # marks an assumed test whose operands may have changed since (never part of source text)
+
 PURE_FUNCS = {'len', 'str', 'int', 'float', 'max', 'min', 'abs', 'isinstance', 'bool', 'chr', 'ord', 'round', 'repr', 'tuple', 'list', 'dict',
               'set', 'sorted', 'reversed', 'hasattr', 'getattr', 'range', 'enumerate', 'zip', 'any', 'all', 'sum', 'type', 'hex', 'callable', 'divmod'}
 PURE_METHODS = {'get', 'lower', 'upper', 'startswith', 'endswith', 'join', 'strip', 'lstrip', 'rstrip', 'split', 'rjust', 'ljust', 'zfill', 'find',
@@ -35,7 +37,8 @@ def reads_heap(val, stable=()):
         if isinstance(n, ast.Subscript):
             if isinstance(n.value, ast.Name) and n.value.id.startswith('_c') and isinstance(n.slice, ast.Constant):
                 continue            # component of a returned tuple, or a constant key of a returned option table
-            if isinstance(n.value, ast.Name) and n.value.id in stable and isinstance(n.slice, ast.Constant) and isinstance(n.slice.value, str):
+            if isinstance(n.slice, ast.Constant) and isinstance(n.slice.value, str) and \
+                    ((isinstance(n.value, ast.Name) and n.value.id in stable) or isinstance(n.value, ast.Call)):
                 continue
             return True
     return False
@@ -82,7 +85,10 @@ class Path:
         canonical spelling over the inputs of the function, for recognising roles (it forgets evaluation time and
         sharing, so use it to identify *what* flows somewhere, not *when* it was computed)"""
         calls = {sym: n for sym, n, _ in self.events if sym.startswith('_c')}
-        snaps = self.snaps
+        snaps = dict(self.snaps)
+        for sym, n, _ in self.events:
+            if sym == '@new':
+                snaps[n.targets[0].id] = (None, n.value, 0)        # objects are numbered per path: their displays live in the path's own events
 
         class R(ast.NodeTransformer):
             def __init__(self, d):
@@ -106,7 +112,7 @@ class Path:
         out = {}
         for s, pol in (self.conds if conds is None else conds):
             try:
-                out[self.rsrc(ast.parse(s.split('@')[0], mode='eval').body)] = pol
+                out[self.rsrc(ast.parse(s.split(STALE)[0], mode='eval').body)] = pol
             except SyntaxError:
                 out[s] = pol
         return out
@@ -126,7 +132,7 @@ class Path:
         """{atom source (without staleness mark): truth}"""
         out = {}
         for s, pol in self.conds:
-            s = s.split('@')[0]
+            s = s.split(STALE)[0]
             if unsnap_with is not None:
                 try:
                     s = src_of(unsnap(ast.parse(s, mode='eval').body, unsnap_with))
@@ -170,6 +176,7 @@ class SymPaths:
         self.ncall = 0
         self.nhavoc = 0
         self.nfreeze = 0
+        self.named_constants = False
         self.nobj0 = 0
         self.stable = _stable_tables(func.node)
         self.nloop = 0
@@ -282,6 +289,12 @@ class SymPaths:
             return ([path], []) if test.elts else ([], [path])          # a display is truthy exactly when it has elements
         if isinstance(test, ast.Dict) and all(k is not None for k in test.keys):
             return ([path], []) if test.keys else ([], [path])
+        if isinstance(test, ast.Name) and test.id.startswith('_o') and test.id[2:].isdigit() and self._pristine(path, test.id):
+            disp = next(n.value for s_, n, _ in path.events if s_ == '@new' and n.targets[0].id == test.id)
+            if isinstance(disp, (ast.List, ast.Set)) and not any(isinstance(x, ast.Starred) for x in disp.elts):
+                return ([path], []) if disp.elts else ([], [path])
+            if isinstance(disp, ast.Dict) and all(k is not None for k in disp.keys):
+                return ([path], []) if disp.keys else ([], [path])
         if isinstance(test, ast.Name) and test.id not in path.env:
             cv = self.p.try_const(self.f, test) if test.id not in self.f.locals else None
             if isinstance(cv, (list, tuple, dict, str, int)) and not isinstance(cv, bool) and cv:
@@ -359,7 +372,7 @@ class SymPaths:
         if isinstance(e, ast.Name):
             if isinstance(e.ctx, ast.Load) and e.id in path.env:
                 return [(path, copy.deepcopy(path.env[e.id]))]
-            c = self._named_constant(e.id)
+            c = self._named_constant(e.id) if self.named_constants else None
             if c is not None:
                 return [(path, c)]
             return [(path, e)]
@@ -414,6 +427,17 @@ class SymPaths:
             out.append((q, n))
         return out
 
+    def _pristine(self, path, sym):
+        """no call received / no store went into the object since it was created on this path"""
+        seen = False
+        for s_, n, _ in path.events:
+            if s_ == '@new' and n.targets[0].id == sym:
+                seen = True
+                continue
+            if seen and s_ != '@new' and any(isinstance(x, ast.Name) and x.id == sym for x in ast.walk(n)):
+                return False
+        return seen
+
     def _named_constant(self, name, depth=0):
         """a module-level name bound once to a number / string or to an arithmetic / bit combination of class constants
         (ParserState.A | ParserState.B) is spelled out, so naming a constant changes nothing"""
@@ -466,7 +490,6 @@ class SymPaths:
                 # truthiness / length are never folded); the display it was created from is kept for resolve()
                 k = sum(1 for e in path.events if e[0] == '@new') + 1 + self.nobj0
                 sym = '_o%d' % k
-                self.snaps[sym] = (target.id, value, len(path.events))
                 path.events = path.events + (('@new', ast.Assign(targets=[ast.Name(id=sym, ctx=ast.Store())], value=value), path.conds),)
                 value = ast.Name(id=sym, ctx=ast.Load())
             path.env[target.id] = value
@@ -497,7 +520,7 @@ class SymPaths:
         hit = [name for name, val in path.env.items() if reads(val)]
         stale = []
         for src, pol in path.conds:
-            if '@' in src:
+            if STALE in src:
                 continue
             try:
                 if reads(ast.parse(src, mode='eval').body):
@@ -511,7 +534,7 @@ class SymPaths:
             sym = '_s%d_%s' % (self.nfreeze, name)
             self.snaps[sym] = (name, path.env[name], len(path.events))
             path.env[name] = ast.Name(id=sym, ctx=ast.Load())
-        path.conds = tuple((('%s@%d' % (src, self.nfreeze)) if src in stale else src, pol) for src, pol in path.conds)
+        path.conds = tuple((('%s%s%d' % (src, STALE, self.nfreeze)) if src in stale else src, pol) for src, pol in path.conds)
 
     def expand_target(self, target, path):
         t = copy.deepcopy(target)
@@ -588,7 +611,7 @@ class SymPaths:
                 sym = '_s%d_%s' % (self.nfreeze, name)
                 self.snaps[sym] = (name, val, len(path.events))
                 path.env[name] = ast.Name(id=sym, ctx=ast.Load())
-        path.conds = tuple((('%s@%d' % (src, self.nfreeze)) if '@' not in src and self._stale(src, set()) else src, pol) for src, pol in path.conds)
+        path.conds = tuple((('%s%s%d' % (src, STALE, self.nfreeze)) if STALE not in src and self._stale(src, set()) else src, pol) for src, pol in path.conds)
         for n in ast.walk(stmt):
             if isinstance(n, ast.Name) and isinstance(n.ctx, ast.Store):
                 path.env[n.id] = ast.Name(id='_h%d_%s' % (self.nhavoc, n.id), ctx=ast.Load())
@@ -626,8 +649,8 @@ class SymPaths:
                 path.env[name] = ast.Name(id=sym, ctx=ast.Load())
         new = []
         for src, pol in path.conds:
-            if '@' not in src and self._stale(src, roots):
-                src = '%s@%d' % (src, self.nfreeze)
+            if STALE not in src and self._stale(src, roots):
+                src = '%s%s%d' % (src, STALE, self.nfreeze)
             new.append((src, pol))
         path.conds = tuple(new)
 
@@ -753,25 +776,27 @@ class SymPaths:
         raise Unsupported('statement %s in %s' % (type(st).__name__, self.f.short))
 
 
-def summaries(project, func, inline=True, pure=(), select=None, unroll=False):
+def summaries(project, func, inline=True, pure=(), select=None, unroll=False, named_constants=False):
     """-> list of finished paths of the normal form of `func` (ret set for returning paths, raised for raising ones)"""
     from . import norm
     node = norm.inline_helpers(project, func, select=select) if inline else copy.deepcopy(func.node)
     node = norm._Tests().visit(node)
     ast.fix_missing_locations(node)
     sp = SymPaths(project, func, node, pure=pure, unroll=unroll)
+    sp.named_constants = named_constants
     paths = sp.run()
     for q in paths:
         q.snaps = sp.snaps
     return paths
 
 
-def block_summaries(project, func, stmts, pure=(), env=None, ncall0=0):
+def block_summaries(project, func, stmts, pure=(), env=None, ncall0=0, named_constants=False):
     """paths through a statement list (e.g. one iteration of a loop body); `exit` tells how each path leaves it"""
     node = ast.FunctionDef(name='_block', args=None, body=list(stmts), decorator_list=[])
     sp = SymPaths(project, func, node, pure=pure)
     sp.ncall = ncall0
     sp.nobj0 = ncall0
+    sp.named_constants = named_constants
     done = []
     first = Path(env=dict(env or {}))
     for q in sp.block(node.body, [first], done):
